@@ -451,6 +451,20 @@ theorem fromV3FormPropT_eq {V : Type} (tw : Bool) (R : List String) (p : Param2 
     · simp only [hit, Option.any_some] at hx
       simp [clearReq, fromV3FormPropT, fromV3FormPropO, kidItems, dropNullable_toV3S s hx]
 
+/-- the update statements of fromV3RequestBodies are the code's: `formParameters` is replaced by
+    FromV3RequestBodyFormData, `bodyOrRefParameters` is appended to -/
+theorem requestBodiesUpdates_is_code : KinModel.Gen.requestBodiesUpdates = requestBodiesUpdates := by decide
+
+/-- **form fields are not multiplied by the media types**: whatever the passes of the media-type loop compute, the
+    code's update statement of `formParameters` keeps exactly the last pass (with `append` in its place a form body
+    under both form media types would yield every form parameter twice) -/
+theorem formParameters_last_pass {α : Type} (passes : List (List α)) (last : List α) :
+    loopResult (updatesOf KinModel.Gen.requestBodiesUpdates "formParameters") (passes ++ [last]) = last := by
+  rw [requestBodiesUpdates_is_code]
+  have : updatesOf requestBodiesUpdates "formParameters" = ["replace:FromV3RequestBodyFormData"] := by decide
+  rw [this]
+  simp [loopResult, List.foldl_append]
+
 /-- witness (F-C17-16, FormItemsNullableLost): an array form parameter whose items carry `x-nullable: true`, under
     both form media types — the form field kept by fromV3RequestBodies is the one of the second pass, whose items
     have lost `x-nullable`; under one form media type they keep it -/
